@@ -308,18 +308,21 @@ structure StyledScanlinesIt where
 def styledScanlines (strokeArea fillArea : RoundedRect) : StyledScanlinesIt :=
   ⟨strokeArea.scanlines, RRContains.new fillArea⟩
 
-/-- The closure of `.map(|scanline| ..)` in `StyledScanlines::next`: within the rows of the fill
-area the fill range is `find(..).zip(rfind(..) + 1)` over the stroke scanline, else `None`. -/
-def StyledScanlinesIt.style (it : StyledScanlinesIt) (s : Scanline) : StyledScanline :=
+/-- The `fill_range` of the closure in `StyledScanlines::next`: within the rows of the fill area
+`find(..).zip(rfind(..).map(|x| x + 1))` over the stroke scanline, else `None`. -/
+def StyledScanlinesIt.fillRange (it : StyledScanlinesIt) (s : Scanline) : Option (Int × Int) :=
   let f := it.fillArea
-  let fillRange : Option (Int × Int) :=
-    if f.rowsStart ≤ s.y ∧ s.y < f.rowsEnd then
-      match rangeFind (fun x => f.contains ⟨x, s.y⟩) s.xs s.xe,
-            (rangeRFind (fun x => f.contains ⟨x, s.y⟩) s.xs s.xe).map (· + 1) with
-      | some a, some b => some (a, b)
-      | _, _ => none
-    else none
-  StyledScanline.new s.y s.xs s.xe fillRange
+  if f.rowsStart ≤ s.y ∧ s.y < f.rowsEnd then
+    match rangeFind (fun x => f.contains ⟨x, s.y⟩) s.xs s.xe,
+          (rangeRFind (fun x => f.contains ⟨x, s.y⟩) s.xs s.xe).map (· + 1) with
+    | some a, some b => some (a, b)
+    | _, _ => none
+  else none
+
+/-- The closure of `.map(|scanline| ..)` in `StyledScanlines::next`:
+`StyledScanline::new(scanline.y, scanline.x, fill_range)`. -/
+def StyledScanlinesIt.style (it : StyledScanlinesIt) (s : Scanline) : StyledScanline :=
+  StyledScanline.new s.y s.xs s.xe (it.fillRange s)
 
 def StyledScanlinesIt.next (it : StyledScanlinesIt) : Option (StyledScanline × StyledScanlinesIt) :=
   match it.scanlines.next with
